@@ -3,7 +3,7 @@
    input connectivity tables (sorted neighbourhoods), evaluated by Coq on the tables of every generated mesh. *)
 From Coq Require Import ZArith List Bool Relations Permutation QArith Qabs Reals Qreals.
 Import ListNotations.
-Require Import MV.Lib.Base MV.C15.Model MV.C15.Proofs MV.C15.ProofsAngle MV.C15.ProofsGeo.
+Require Import MV.Lib.Base MV.C15.Model MV.C15.Proofs MV.C15.ProofsAngle MV.C15.ProofsGeo MV.C15.ProofsGeoLink.
 
 (* from any border start the walk is a closed walk along border edges visiting each border vertex of the loop of
    the start exactly once, every border edge of that loop exactly once, with the edge ids reported *)
@@ -90,6 +90,16 @@ Theorem C15_features_geometric : forall g ob e,
                       \/ ((exists l, g_hard g = Some l /\ In e l) /\ geo_lt g e (hard_bound + 0) = Some true)))).
 Proof. exact geo_feature_edges_spec. Qed.
 Print Assumptions C15_features_geometric.
+
+(* the two readings coincide: when the normals table the detector reads holds the EXACT unit normals of the faces
+   (exact_tables: entry = normal direction computed from the vertices divided by its - rational - length) and the
+   tables are well formed (wfF, proved for every manifold surface in PropsC01.v), the set flagged by the detector
+   model IS the geometric classification: border edges, interior edges whose adjacent unit normals are more than 60
+   degrees apart, declared hard edges more than acos(4/5) apart (C15_unit_normals_angle reads the test as the angle) *)
+Theorem C15_features_are_geometric_exact_normals : forall g m o, exact_tables g m -> wfF m ->
+  forall e, In e (feature_edges m o) <-> In e (geo_feature_edges 0 g (o_only_border o)).
+Proof. exact features_are_geometric. Qed.
+Print Assumptions C15_features_are_geometric_exact_normals.
 
 Theorem C15_unit_normals_angle : forall c1 c2 : Q3, (0 < dot3 c1 c1)%Q -> (0 < dot3 c2 c2)%Q ->
   (-1 <= cos_between c1 c2 <= 1)%R
